@@ -75,6 +75,9 @@ type pathState struct {
 	nconds    int
 	observed  []string // Observe() digests for translation validation
 	params    map[string]int
+	dom       map[*Term]*byteDom
+	entangled map[*Term]bool
+	domDecided int
 }
 
 func (ps *pathState) inReplay() bool { return ps.pos < len(ps.prefix) }
@@ -127,6 +130,7 @@ func (ps *pathState) evalUnder(t *Term) (uint64, bool) {
 
 func (ps *pathState) assertCond(c *Term) {
 	ps.nconds++
+	ps.noteCond(c)
 	ps.sol.assertTerm(c)
 }
 
@@ -146,6 +150,53 @@ func (ps *pathState) branch(c *Term) bool {
 			ps.assertCond(tt.not(c))
 		}
 		return d.B
+	}
+	if v := ps.singleByteVar(c); v != nil {
+		tset, fset := ps.split(c, v)
+		switch {
+		case fset.empty() && !tset.empty():
+			ps.domDecided++
+			ps.decisions = append(ps.decisions, dec{B: true})
+			ps.nconds++
+			ps.sol.assertTerm(c)
+			return true
+		case tset.empty() && !fset.empty():
+			ps.domDecided++
+			ps.decisions = append(ps.decisions, dec{B: false})
+			ps.nconds++
+			ps.sol.assertTerm(tt.not(c))
+			return false
+		case !tset.empty() && !fset.empty() && !ps.entangled[v]:
+			// both sides feasible; v is independent of every other variable
+			ps.ensureModel()
+			cur := int(ps.model[v.name] & 0xff)
+			taken := tset.has(cur)
+			oset := fset
+			if !taken {
+				oset = tset
+			}
+			m := make(map[string]uint64, len(ps.model))
+			for k, x := range ps.model {
+				m[k] = x
+			}
+			m[v.name] = uint64(oset.first())
+			sib := make([]dec, len(ps.decisions)+1)
+			copy(sib, ps.decisions)
+			sib[len(ps.decisions)] = dec{B: !taken}
+			ps.forks = append(ps.forks, workItem{prefix: sib, model: m})
+			ps.symDecisions++
+			ps.domDecided++
+			ps.decisions = append(ps.decisions, dec{B: taken})
+			ps.nconds++
+			if taken {
+				*ps.domOf(v) = tset
+				ps.sol.assertTerm(c)
+			} else {
+				*ps.domOf(v) = fset
+				ps.sol.assertTerm(tt.not(c))
+			}
+			return taken
+		}
 	}
 	mv, ok := ps.evalUnder(c)
 	taken := mv != 0
